@@ -197,7 +197,7 @@ class Engine:
             return T.conj(T.neg(T.Mem(S.links(x), r)), T.neg(T.Mem(S.ends(x), r)), T.neg(T.Mem(S.unis(x), r)),
                           S.laws(x) != r, S.applies(x) != r, T.neg(T.Mem(S.elems(x), r)),
                           T.neg(S.read("setmem", x, r)), T.neg(S.read("dmem", x, r)), S.read("_edge_whitelist", x) != r)
-        sch = [Schema(f"fresh({r})", (Ref,), f1)]
+        sch = [Schema(f"fresh({r})", (Ref,), f1, filter=True)]
         mh = S._fs("memo_val")
 
         def f2(v, d, u, f):
@@ -223,7 +223,7 @@ class Engine:
             elif isinstance(v, VAdj):
                 p.assume(r != v.term)
                 p.assume(T.neg(T.Mem(T.adj_keys(v.term), r)))
-                p.schemas.append(Schema(f"fresh-adj({r})", (Ref,), lambda k, a=v.term, r=r: T.neg(T.Mem(T.adj_row(a, k), r))))
+                p.schemas.append(Schema(f"fresh-adj({r})", (Ref,), lambda k, a=v.term, r=r: T.neg(T.Mem(T.adj_row(a, k), r)), filter=True))
 
     def alloc(self, p: Path, cls_term, kind="obj", name="new"):
         r = T.fresh(name, Ref)
@@ -501,6 +501,9 @@ class Engine:
         else:
             raise Unsupported(f"{ctrl[0]} outside loop")
         tag = f"exit:{exc or 'return'}"
+        # an exit that a `may` outcome allows (RecursionError) needs no agreement with the deterministic outcomes
+        ends_as_may = kind == "raise" and any(getattr(o_, "may", False) and o_.exc is not None and o_.exc != "*" and any(
+            exc_matches(exc, e_) for e_ in ((o_.exc,) if isinstance(o_.exc, str) else o_.exc)) for o_ in spec.outcomes)
         for oi, o in enumerate(spec.outcomes):
             self._group = None
             olabel = o.label or f"outcome{oi}"
@@ -509,6 +512,8 @@ class Engine:
             any_exit = o.exc == "*"
             if any_exit:
                 matches = True
+            if not matches and (getattr(o, "may", False) or ends_as_may):
+                continue            # optional abnormal end: says nothing about paths that end otherwise (and vice versa)
             if not matches:
                 # this outcome's condition must be impossible on this path
                 self.emit(p, "exit-kind", f"{tag}/not:{olabel}", T.neg(o.cond),
